@@ -84,6 +84,16 @@ example (fails : Nat → Bool) (g : Bool) (k : Nat) (s : St) (h : Idle s) :
    C19_session_end _ (by simp [Cfg.WF]) _ _ s h, C19_session_end _ (by simp [Cfg.WF]) _ _ s h,
    C19_session_end _ (by simp [Cfg.WF]) _ _ s h⟩
 
+/-- **a flush that has nothing to write changes nothing the lock protocol depends on** (`cache.modified` set by
+    create+delete, add+remove or a value set back): for every oracle it ends normally, makes no DB-API call, leaves
+    `in_transaction` and the lock as they were and, outside a transaction, restores `immediate` — in particular `_exec_sql`'s
+    `if cache.immediate: cache.in_transaction = True` cannot claim a transaction that was never begun -/
+theorem C19_noop_flush (cf : Cfg) (s : St) (hI : Inv cf false false s) (hh : s.hasCache = true) (hp : s.cache.pending = []) :
+    (cacheFlush cf s).1 = .ok () ∧ (s.cache.inTx = false → (cacheFlush cf s).2.cache.immediate = s.cache.immediate) ∧
+    (cacheFlush cf s).2.cache.inTx = s.cache.inTx ∧ (cacheFlush cf s).2.lock = s.lock ∧ (cacheFlush cf s).2.n = s.n := by
+  cases hin : s.cache.inTx <;>
+    simp [cacheFlush, flushLoop, hp, hin, bind, bindM, getS, modC, PonyVerif.Model.ConnLock.tryFinally, pure, ret]
+
 /-! ### sessions one after the other in one thread -/
 
 /-- any sequence of sessions, each with its own options, body and oracle, leaves the thread idle -/
@@ -305,6 +315,10 @@ theorem C19_src_pool_release (cf : Cfg) (con : Nat) : exec cf con Gen.ConnLockSr
 
 /-- `Pool.drop` -/
 theorem C19_src_pool_drop (cf : Cfg) (con : Nat) : exec cf con Gen.ConnLockSrc.poolDrop = poolDrop cf con := src_pool_drop cf con
+
+/-- `SessionCache.flush` as it is written today still restores `cache.immediate` in a `finally` (re-read from the source on
+    every run): the premise under which `cacheFlush` of the model — and with it `C19_noop_flush` — mirrors it -/
+theorem C19_src_flush_restores_immediate : Gen.ConnLockSrc.flushRestoresImmediateInFinally = true := rfl
 
 /-- **the lock sites, on the regenerated source**: for every oracle, every path through today's `SQLiteProvider.commit`,
     `.rollback` and `.drop` — normal or raising — ends with `in_transaction` False and the transaction lock free, given
